@@ -364,6 +364,7 @@ func runLeg(name, tier string, seed uint64, modelBin, outDir, knownPath string) 
 	c := &Ctx{Leg: name, Prop: e.prop, Tier: tier, Seed: seed, Rng: NewRng(seed ^ mix), ModelBin: modelBin,
 		OutDir: outDir, Thorough: tier == "thorough", distinct: map[string]bool{}, known: loadKnown(knownPath, e.prop)}
 	c.res.Leg = name
+	c.res.Histogram = map[string]int{}
 	t0 := time.Now()
 	e.f(c)
 	c.Flush()
